@@ -76,8 +76,9 @@ func pendingObls(j *Job) []*Obligation {
 }
 
 // buildIncremental builds one incremental script for a chunk of obligations (in generation order).
-func buildIncremental(j *Job, todo []*Obligation, timeoutMs int) string {
+func buildIncremental(j *Job, todo []*Obligation, timeoutMs int, dropQ bool) string {
 	sc := NewScript()
+	sc.dropQ = dropQ
 	sc.Raw(preamble(timeoutMs))
 	asserted := 0
 	ins := inputTerms(j)
@@ -133,7 +134,12 @@ func buildIncremental(j *Job, todo []*Obligation, timeoutMs int) string {
 
 // buildSingle builds a standalone script for one obligation.
 func buildSingle(j *Job, o *Obligation, timeoutMs int, withModel bool, extra ...*Term) string {
+	return buildSingleQ(j, o, timeoutMs, withModel, false, extra...)
+}
+
+func buildSingleQ(j *Job, o *Obligation, timeoutMs int, withModel bool, dropQ bool, extra ...*Term) string {
 	sc := NewScript()
+	sc.dropQ = dropQ
 	sc.Raw(preamble(timeoutMs))
 	// facts assumed on a path that contradicts the obligation's path condition are irrelevant (dropping them is sound)
 	pcLits := map[int]bool{}
@@ -325,6 +331,8 @@ type solverDef struct {
 // Array extensionality is switched off in one configuration: it only removes inferences, so `unsat`
 // stays sound, and it avoids a blow-up on the heap encodings; its `sat` answers are not used.
 var solvers = []solverDef{
+	// same core as the chunked first stage (z3 switches to its incremental smt core after a push)
+	{"z3-5.1.0-noext-inc", "z3-new", []string{"-in", "smt.array.extensional=false"}, false},
 	{"z3-5.1.0-noext", "z3-new", []string{"-in", "smt.array.extensional=false"}, false},
 	{"z3-5.1.0", "z3-new", []string{"-in"}, true},
 	{"z3-4.8.12", "/usr/bin/z3", []string{"-in"}, true},
@@ -354,6 +362,9 @@ func portfolioScript(j *Job, o *Obligation, script string, cfg SolverCfg) {
 			sc := script
 			if strings.HasPrefix(s.name, "cvc5") {
 				sc = "(set-logic ALL)\n" + script
+			}
+			if strings.HasSuffix(s.name, "-inc") {
+				sc = strings.Replace(sc, "(check-sat)", "(push 1)\n(check-sat)", 1)
 			}
 			out, _ := runSolver(ctx, s.bin, args, sc)
 			ch <- res{s.name, out, time.Since(t0).Seconds()}
